@@ -5,7 +5,9 @@
 //   replay <cfg> <inputs> <out.ndjson> one linear execution (chain graph, same format)
 //   random <cfg> <out.ndjson> <steps>  seeded random linear execution (N <= 10, priorities 1..9)
 // cfg (text): "N p1..pN maxnodes cap alphabet"  alphabet = letters of n(ext) s(etprio) a(dd back) f(ront) c(ondition use)
-//             r(emove+re-add) t(ick) v(ictim: setprio on the last message only); setprio priorities follow the alphabet
+//             r(emove+re-add) t(ick) v(ictim: setprio on the last message only) x (a second, independent MessageMap with
+//             its own poll message is cleared and reloaded, alternately destroyed and recreated) R (reload of the main map:
+//             clear() + all definitions read again); setprio priorities follow the alphabet
 //             (random mode: 1..9; optional 6th argument = period in selections at which the last message's priority is
 //             toggled between 8 and 9, as two clients adjusting the same message would do).
 // g_lastPollOrder cannot be reset inside a process, therefore every re-execution from the initial state runs in a
@@ -72,6 +74,8 @@ struct Live {
   NullResolver* resolver;
   vector<Message*> msgs;
   Message* probe;
+  MessageMap* other;          // as MainLoop::m_newlyDefinedMessages: shares only the file-static g_lastPollOrder
+  unsigned int otherOps;
   unsigned int lineNo;
   string defLine(int i) const {
     char b[128]; snprintf(b, sizeof b, "r%d,cir,m%d,,,08,b509,0d%02x00,,,UCH", cfg->prios[i], i + 1, i + 1); return b;
@@ -95,6 +99,14 @@ struct Live {
     // a message that is never polled: used only to read the file-static g_lastPollOrder through the real code
     if (!readLine("r,cir,probe,,,08,b509,0dff00,,,UCH")) exit(2);
     probe = map->find("cir", "probe", "*", false);
+    other = nullptr; otherOps = 0;
+    loadOther();
+  }
+  void loadOther() {
+    if (!other) other = new MessageMap(true, "", false);    // constructed as the daemon constructs its second map
+    unsigned int ln = 0; vector<string> row; string e;
+    std::istringstream h("#"); other->readLineFromStream(&h, "o.csv", false, &ln, &row, &e, false, nullptr, nullptr);
+    std::istringstream d("r2,oth,o1,,,08,b509,0dfd00,,,UCH"); other->readLineFromStream(&d, "o.csv", false, &ln, &row, &e, false, nullptr, nullptr);
   }
   // g_lastPollOrder = order a message gets when its priority is raised from 0 to 1, minus 1 (Message::setPollPriority)
   unsigned int gLast() {
@@ -118,6 +130,8 @@ static vector<Input> alphabet(const Cfg& c) {
   for (char k : c.alpha) {
     if (k == 'n') v.push_back({'n', 0, 0});
     else if (k == 't') v.push_back({'t', 0, 1});
+    else if (k == 'x') v.push_back({'x', 0, 0});
+    else if (k == 'R') v.push_back({'R', 0, 0});
     else if (k == 'v') { for (int p : c.setPrios) v.push_back({'s', c.n, p}); }   // priority changes of one victim (the last message) only
     else for (int m = 1; m <= c.n; m++) {
       if (k == 's') { for (int p : c.setPrios) v.push_back({'s', m, p}); }
@@ -128,11 +142,11 @@ static vector<Input> alphabet(const Cfg& c) {
 }
 static const char* kindName(char k) {
   switch (k) { case 'n': return "next"; case 's': return "setprio"; case 'a': return "addback"; case 'f': return "addfront";
-               case 'c': return "conduse"; case 'r': return "readd"; default: return "tick"; }
+               case 'c': return "conduse"; case 'r': return "readd"; case 'x': return "otherclear"; case 'R': return "reload"; default: return "tick"; }
 }
 static char kindChar(const string& s) {
   if (s == "next") return 'n'; if (s == "setprio") return 's'; if (s == "addback") return 'a'; if (s == "addfront") return 'f';
-  if (s == "conduse") return 'c'; if (s == "readd") return 'r'; return 't';
+  if (s == "conduse") return 'c'; if (s == "readd") return 'r'; if (s == "otherclear") return 'x'; if (s == "reload") return 'R'; return 't';
 }
 
 static int apply(Live& L, const Input& in) {
@@ -151,6 +165,18 @@ static int apply(Live& L, const Input& in) {
       m->setUsedByCondition();
       L.map->addPollMessage(true, m);
       return 0;
+    }
+    case 'x': {   // the other map is cleared and its definition read again; every second time it is destroyed and recreated
+      if (L.otherOps++ % 2) { delete L.other; L.other = nullptr; } else L.other->clear();
+      L.loadOther();
+      return 0;
+    }
+    case 'R': {   // reload of the main map: clear() + all definitions again (new instances)
+      L.map->clear();
+      for (int i = 0; i < L.cfg->n; i++) { if (!L.readLine(L.defLine(i))) return 2; L.msgs[i] = L.lookup(i); if (!L.msgs[i]) return 3; }
+      if (!L.readLine("r,cir,probe,,,08,b509,0dff00,,,UCH")) return 4;
+      L.probe = L.map->find("cir", "probe", "*", false);
+      return L.probe ? 0 : 5;
     }
     case 'r': {   // reload of one definition: remove (deletes the instance) and read the CSV line again
       L.map->remove(L.msgs[in.m - 1]);
@@ -234,7 +260,7 @@ static string keyOf(const Snap& s, int cap) {
   k << "n" << (nowIsMax ? 1 : 0);
   return k.str();
 }
-static int kindCode(char k) { switch (k) { case 'n': return 1; case 's': return 2; case 'a': return 3; case 'f': return 4; case 'c': return 5; case 'r': return 6; default: return 7; } }
+static int kindCode(char k) { switch (k) { case 'n': return 1; case 's': return 2; case 'a': return 3; case 'f': return 4; case 'c': return 5; case 'r': return 6; case 'x': return 8; case 'R': return 9; default: return 7; } }
 static string edgeJson(const Input& in, int out, int to) {
   char b[96]; snprintf(b, sizeof b, "[%d,%d,%d,%d,%d]", kindCode(in.k), in.m, in.a, out, to); return b;
 }
@@ -317,7 +343,7 @@ static void expandInChild(const Cfg& cfg, const vector<Input>& sigma, const vect
 
 static int cmdGraph(char** argv) {
   Cfg cfg = readCfg(argv[2]);
-  if (cfg.alpha.find('r') == string::npos) return cmdGraphRestore(cfg, argv[3]);
+  if (cfg.alpha.find_first_of("rxR") == string::npos) return cmdGraphRestore(cfg, argv[3]);   // those need exact re-execution
   vector<Input> sigma = alphabet(cfg);
   std::map<string, int> seen;
   std::deque<int> queue;
@@ -413,7 +439,7 @@ static int cmdRandom(char** argv) {
   for (int s = 0; s < steps; s++) {
     if (!pert.empty() && rng.below(1000) < (unsigned)pertPerMille) {
       char k = pert[rng.below((unsigned)pert.size())];
-      int m = 1 + (int)rng.below((unsigned)cfg.n);
+      int m = (k == 'x' || k == 'R') ? 0 : 1 + (int)rng.below((unsigned)cfg.n);
       ins.push_back({k, m, k == 's' ? 1 + (int)rng.below(9) : 0});
     } else if (cfg.alpha.find('t') != string::npos && rng.below(10) == 0) ins.push_back({'t', 0, 1});
     else {
